@@ -14,7 +14,10 @@ COMMON_NOTE = ("Trusted: Coq 8.16.1 kernel and VM (vm_compute; no native_compute
                "above lists, the case sets include: node classes with user-defined special methods (eight kinds, one of "
                "them tuple-based) in every tree-building check, start nodes that are not roots, SymlinkNode-mixed and "
                "all-__slots__ trees, degenerate trees of 450-700 levels under the default recursion limit (C02, C05, "
-               "C15), and a regression corpus of minimal failing inputs from 178 seeded changes (DESIGN.md section 0).")
+               "C15), loop refusals on chains deeper than the recursion limit (C01, C02), children arguments passed as "
+               "one-shot iterables (C02), link nodes whose target is an inner node of an already inspected tree "
+               "(C01-C03, C16, C18), and a regression corpus of minimal failing inputs from 198 seeded changes "
+               "(DESIGN.md section 0).")
 
 CHECKS = {
     "C14": dict(
@@ -93,7 +96,9 @@ CHECKS = {
         technique="Coq proof (symbolic execution of the setter monad) + exhaustive correspondence of hook logs with state snapshots"),
     "C18": dict(
         text="Theorem C18_lockstep - for node arguments the two mixins' setters are the same function (all faults, "
-             "states, fuel). The read-only queries have one Gallina function each (the query model does not know which "
+             "states, fuel); C18_lockstep_histories / C18_lockstep_final_forest lift it to every history of such calls "
+             "(per-call fault oracle, assertion setting and fuel): each call's outcome, hook log and resulting forest "
+             "coincide. The read-only queries have one Gallina function each (the query model does not know which "
              "mixin built the tree), so the theorems of C04-C09, C14, C15 are about both. Tie: (1) lock-step execution of "
              "a NodeMixin and a LightNodeMixin (__slots__) subclass on every forest <= 3 nodes x every call x faults, also "
              "on adversarial classes: outcomes, link maps and hook logs equal each other and the model; (2) the quick case "
@@ -209,7 +214,9 @@ CHECKS = {
         text="Partial by nature (the copier is CPython's). Proved: in a consistent forest the object graph reachable from "
              "any entry node through parent/children/target references contains its whole tree and the targets' trees; "
              "an isomorphic copy of a closed part of a consistent forest is a consistent forest "
-             "(C19_isomorphic_copy_consistent: the contract clauses imply the C01 invariant of the copy); the "
+             "(C19_isomorphic_copy_consistent: the contract clauses imply the C01 invariant of the copy) and is "
+             "isomorphic to the original as a tree at every depth (C19_copy_isomorphic_tree: tree_of of the copy is the "
+             "renamed tree_of of the original; pre- and post-order follow by naturality); the "
              "consistency check evaluated on copies is the C01 invariant. The contract of the copier is evaluated in "
              "Coq on every explored copy: reachable set, bijective renaming, shape, child order, classes, attributes, "
              "symlink targets, entry position, inv_b. Tie: every shape <= 4 nodes with mixed classes, a second tree, "
